@@ -53,6 +53,7 @@ type sys struct {
 	cutSet   []int
 	dropped  map[[2]int]bool // [to, from]: a Commit or Abort of `from` never reached `to` (transport reported an error)
 	preSent    map[[2]int]int64 // [to, from]: latest SenderTime of a PreCommit `from` has handed to its handle for `to`
+	droppedCommit map[[2]int]bool // [to, from]: a Commit of `from` never reached `to`
 	abortAcked map[[2]int]int64 // [to, from]: latest SenderTime of an Abort of `from` that `to` has processed (Send returned without error)
 }
 
@@ -110,6 +111,18 @@ func (s *sys) lostTo(to int, from string) bool {
 	return false
 }
 
+// commitLost says whether the transport dropped a Commit on its way to some replica (which
+// is never re-sent once the committer has moved on: recorded finding). Such a replica stays
+// at the old version; its promise for that version is forgotten as soon as a proposal of a
+// later version passes through it, and it can then vote for a second proposal of the version
+// it missed: two proposers win one version.
+func (s *sys) commitLost() string {
+	for k := range s.droppedCommit {
+		return fmt.Sprintf("the Commit of node %d to replica %d was dropped by the transport and never re-sent", k[1], k[0])
+	}
+	return ""
+}
+
 type commitRec struct {
 	node     int
 	read     int32
@@ -138,6 +151,9 @@ func (h *simHandle) Send(req resources.TwoPCRequest, reply *resources.TwoPCRespo
 	noteDrop := func() {
 		if req.RequestType == resources.Commit || req.RequestType == resources.Abort {
 			h.s.dropped[[2]int{h.to, h.from}] = true
+		}
+		if req.RequestType == resources.Commit {
+			h.s.droppedCommit[[2]int{h.to, h.from}] = true
 		}
 	}
 	if h.s.down[h.from] || h.s.down[h.to] {
@@ -187,6 +203,7 @@ func (s *sys) build() {
 	s.down = make([]bool, s.n)
 	s.dropped = map[[2]int]bool{}
 	s.abortAcked = map[[2]int]int64{}
+	s.droppedCommit = map[[2]int]bool{}
 	s.preSent = map[[2]int]int64{}
 	if s.n >= 3 && w.Choose(sim.KFault, 3) == 1 {
 		// cut off a minority for a while: they miss commits and come back lagging
@@ -343,6 +360,9 @@ func (s *sys) invariant() {
 		c := ulib.Canon(val)
 		if old, ok := s.byVer[ver]; ok {
 			if old != c {
+				if why := s.commitLost(); why != "" {
+					w.Fail("two_winners_after_lost_commit", "replica %d holds %s for version %d, another replica held %s for the same version; %s | %s", i, c, ver, old, why, s.desc)
+				}
 				w.Fail("two_values_for_one_version", "replica %d holds %s for version %d, another replica held %s for the same version | %s", i, c, ver, old, s.desc)
 			}
 		} else {
@@ -429,6 +449,9 @@ func scenario(w *sim.World) {
 	seen := map[int32]int{}
 	for _, c := range s.commits {
 		if prev, dup := seen[c.read]; dup {
+			if why := s.commitLost(); why != "" {
+				w.Fail("two_winners_after_lost_commit", "two committed increments (nodes %d and %d) both read %d: two proposers won one version; %s | %s", prev, c.node, c.read, why, s.desc)
+			}
 			w.Fail("lost_update", "two committed increments (nodes %d and %d) both read %d: one overwrote the other | %s", prev, c.node, c.read, s.desc)
 		}
 		seen[c.read] = c.node
